@@ -44,7 +44,7 @@ func decodeSeq(c *core.Case, e *entry, op string, docs ...[]byte) (target any, l
 // reuseCheck runs a sequence on one target, re-encodes an accepted result
 // (must not panic) and counts a result that differs from a fresh decode of the
 // last document.
-func reuseCheck(c *core.Case, e *entry, op string, docs ...[]byte) {
+func reuseCheck(c *core.Case, e *entry, op string, exercise bool, docs ...[]byte) {
 	c.Count("reused_target_sequences", 1)
 	target, err, p := decodeSeq(c, e, op, docs...)
 	if p {
@@ -77,7 +77,9 @@ func reuseCheck(c *core.Case, e *entry, op string, docs ...[]byte) {
 		c.Count("reused_target_differs_from_fresh", 1)
 		c.Count("reused_stale:"+e.name, 1)
 	}
-	exerciseDecoded(c, e, target, "reused decode target")
+	if exercise {
+		exerciseDecoded(c, e, target, "reused decode target")
+	}
 }
 
 // firstGoodEncoding returns the first encoding of v that was written without
